@@ -418,6 +418,7 @@ func runC12(c *Ctx) {
 	c12Recorders(c)
 	c12PublishAfterInit(c)
 	c12IndexAligned(c)
+	recordedHostsReadBack(c, "C12.R1")
 
 	// R3
 	replace := map[string]int{"TriggerClusterHostUpdate": 0, "UpdateClusterHosts": 0, "AddOrUpdateRouters": 0}
